@@ -26,9 +26,9 @@ def _spacing(rng: random.Random) -> float:
 
 
 def gen_case(rng: random.Random, dim: int | None = None, kind: str | None = None, max_cells: int = 4096,
-             min_n: int = 2) -> dict:
+             min_n: int = 2, big: bool = False) -> dict:
     d = dim or rng.choice([1, 1, 2, 2, 3])
-    cap = {1: 40, 2: 14, 3: 8}[d]
+    cap = ({1: 256, 2: 48, 3: 16} if big else {1: 40, 2: 14, 3: 8})[d]
     shape = [rng.randrange(min_n, cap + 1) for _ in range(d)]
     while int(np.prod(shape)) > max_cells:
         shape[rng.randrange(d)] = max(min_n, shape[rng.randrange(d)] // 2)
@@ -293,7 +293,7 @@ def known_entry(prop: str, call: str, method: str, failure: str, **attrs):
         if failure not in m.get("failure", []):
             continue
         ok = True
-        for key in ("smoothing", "grid"):
+        for key in ("smoothing", "grid", "condition"):
             if key in m:
                 want = m[key] if isinstance(m[key], list) else [m[key]]
                 if attrs.get(key) not in want:
